@@ -360,6 +360,13 @@ def kfTagDup (z : TimeZone) : String := kfTag z
 
 def kfTagF1 (z : TimeZone) : String := kfTag z
 
+/-- `findn … => <count> <exh> <datalen> B <n entries> U … E … X … ## F <find answer> ## S <n entries after stale search>` -/
+def splitOn3 (toks : List String) : List (List String) :=
+  let rec go : List String → List String → List (List String) → List (List String)
+    | [], cur, acc => (cur.reverse :: acc).reverse
+    | t :: ts, cur, acc => if t == "##" then go ts [] (cur.reverse :: acc) else go ts (t :: cur) acc
+  go toks [] []
+
 def findOracles (z : TimeZone) (y mo d h mi s ns : Int) (rhs : List String) : Verdicts :=
   -- F5: the search guards the searched (local) year, the lookup the UTC year of the instant: in the two
   -- outermost guarded years a candidate can fall into a UTC year the lookup refuses
@@ -370,7 +377,12 @@ def findOracles (z : TimeZone) (y mo d h mi s ns : Int) (rhs : List String) : Ve
   | some e => [("C05.search_refuses_invalid_fields", rhs == [e])]
   | none =>
     if isErr rhs then []   -- a candidate instant outside the supported range (separate lemma `find_err_iff`)
-    else match findAnswer? rhs with
+    else
+    -- `… ## L a | b`: the implementation's own forward lookup at every valid result
+    let (rhs, ownToks) := match splitOn3 rhs with
+      | [m, "L" :: o] => (m, some o)
+      | _ => (rhs, none)
+    match findAnswer? rhs with
     | none => [("C05.answer_shape", false)]
     | some (l, rest) =>
       let c := seconds y mo d h mi s
@@ -384,7 +396,14 @@ def findOracles (z : TimeZone) (y mo d h mi s ns : Int) (rhs : List String) : Ve
       let implGaps := skipped.map (fun (b, a) => (b.unixTime, b.localTimeType, a.localTimeType))
       let gapsShape := skipped.all (fun (b, a) => b.unixTime == a.unixTime && b.nanoseconds == ns && a.nanoseconds == ns && dtInv b && dtInv a)
       let accessors : String := s!"U {showOpt (listUnique l)} E {showOpt (listEarliest l)} X {showOpt (listLatest l)}"
-      [("C05.valid_results_are_exactly_the_instants" ++ tag, sameMembers implSet spec),
+      let ownOk : Bool := match ownToks with
+        | none => true
+        | some o =>
+          let items := (String.intercalate " " o).splitOn " | "
+          let items := if o.isEmpty then [] else items
+          items == normals.map (fun x => showLtt x.localTimeType)
+      [("C05.results_show_the_time_under_the_implementations_own_lookup" ++ tag, ownOk),
+       ("C05.valid_results_are_exactly_the_instants" ++ tag, sameMembers implSet spec),
        ("C05.no_duplicates" ++ tagDup, noDups implSet),
        ("C05.results_carry_searched_fields", fieldsOk),
        ("C14.search_entries", l.all (fun f => match f with | .normal x => dtInv x | .skipped b a => dtInv b && dtInv a)),
@@ -396,13 +415,6 @@ def findOracles (z : TimeZone) (y mo d h mi s ns : Int) (rhs : List String) : Ve
       (if z.leapSeconds.isEmpty then [] else
         [("C12.search_reports_the_instant_the_lookup_switches" ++ tag, sameMembers (implGaps.map (·.1)) (gaps.map (·.1))),
          ("C12.search_and_lookup_agree" ++ tag, sameMembers implSet spec)])
-
-/-- `findn … => <count> <exh> <datalen> B <n entries> U … E … X … ## F <find answer> ## S <n entries after stale search>` -/
-def splitOn3 (toks : List String) : List (List String) :=
-  let rec go : List String → List String → List (List String) → List (List String)
-    | [], cur, acc => (cur.reverse :: acc).reverse
-    | t :: ts, cur, acc => if t == "##" then go ts [] (cur.reverse :: acc) else go ts (t :: cur) acc
-  go toks [] []
 
 def bufEntries (n : Nat) : P (List (Option Found)) :=
   repeatP n (do
